@@ -1577,6 +1577,16 @@ def check_C05(tier, seed):
         (["(defun step (v) (+ v 1))", "(setq f (let ((step (lambda (v) (* v 3)))) (lambda (n) (list (step n) (funcall step n) (mapcar step (list n))))))", "(funcall f 2)"], [None, None, '(6 6 (6))']),
         (["(defun hd (v) (car v))", "(setq f (let ((hd (lambda (v) (cdr v)))) (lambda (n) (list (hd n) `(,(hd n)) (eval `(hd ',n))))))", "(funcall f '(1 2))"], [None, None, "((2) ((2)) (2))"]),
     ]
+    # a captured variable that holds a function, used as a quoted function designator by the sequence functions
+    fixed += [
+        (["(setq f (let ((op (lambda (v) (* v 3)))) (lambda (l) (mapcar 'op l))))", "(funcall f '(1 2))"], [None, '(3 6)']),
+        (["(defun op (v) (+ v 100))", "(setq f (let ((op (lambda (v) (* v 3)))) (lambda (l) (mapcar #'op l))))", "(funcall f '(1 2))", "(let ((op (lambda (v) 0))) (funcall f '(1)))"], [None, None, '(3 6)', '(3)']),
+        (["(setq f (let ((pred (lambda (v) (> v 1)))) (lambda (l) (seq-filter 'pred l))))", "(funcall f '(1 2 3))", "(let ((pred (lambda (v) nil))) (funcall f '(1 2 3)))"], [None, '(2 3)', '(2 3)']),
+        (["(setq f (let ((op (lambda (a b) (+ a b)))) (lambda (l) (seq-reduce 'op l 10))))", "(funcall f '(1 2))", "(defun op (a b) 0)", "(funcall f '(1 2))"], [None, '13', None, '13']),
+        (["(setq f (let ((lt (lambda (a b) (< a b)))) (lambda (l) (sort l 'lt))))", "(funcall f '(3 1 2))", "(let ((lt (lambda (a b) (> a b)))) (funcall f '(3 1 2)))"], [None, '(1 2 3)', '(1 2 3)']),
+        (["(setq f (let ((pred (lambda (v) (> v 1)))) (lambda (l) (seq-find #'pred l))))", "(funcall f '(1 2 3))"], [None, '2']),
+        (["(defun mk (fn) (lambda (l) (mapcar 'fn l)))", "(setq f (mk (lambda (v) (list v))))", "(funcall f '(1 2))", "(defun fn (v) 'global)", "(funcall f '(1))"], [None, None, '((1) (2))', None, '((1))']),
+    ]
     for t, e in fixed: add(t, e, 'fixed')
     cases = []
     for i, (texts, meta) in enumerate(items):
@@ -2197,9 +2207,20 @@ def check_C11(tier, seed):
     g = ListExprGen(rng)
     cases = []; exprs = []
     n = tier_n(tier, 1500, 40000)
+    # quoted macro calls expanded or evaluated at run time: the quoted constant (and the lists it mentions) must be
+    # the same for the second and third expansion
+    MACRO_DATA = ["(eval '(->> 1 (+ 2)))", "(eval '(thread-last 1 (+ 2) (* 3)))", "(macroexpand '(->> l1 (cons 0) (append l2)))", "(eval '(-> 5 (- 2) (list 1)))",
+                  "(macroexpand '(thread-first l1 (nthcdr 1) (append l3)))", "(eval (list '->> 1 '(+ 2) '(list 3)))", "(eval '(when t (append l1 l2)))", "(macroexpand '(unless nil (cdr l1) (car l2)))",
+                  "(macroexpand '(if-let ((a l1)) (car a) (cdr l2)))", "(eval '(if-let* ((a l1) (b (cdr a))) b))", "(eval '(when-let ((a l1)) (car a)))", "(macroexpand '(when-let ((a (cdr l1)) (b l2)) (list a b)))",
+                  "(let ((n 0)) (eval '(while-let ((a (nthcdr n l1))) (setq n (1+ n)))) n)", "(macroexpand '(while-let ((a l3)) (car a)))", "(eval `(->> ,(list 'quote l1) (mapcar '1+)))",
+                  "(let ((step '(+ 2))) (list (eval (list '->> 1 step)) step))", "(let ((step '(list 10 20))) (eval (list '-> 1 step)) step)",
+                  "(progn (defmacro addtwo (x) (list '->> x '(+ 2))) (list (macroexpand '(addtwo 1)) (macroexpand '(addtwo 5))))",
+                  "(progn (defmacro wrapl (x) `(append ,x '(9))) (list (eval '(wrapl l1)) (eval '(wrapl l1))))"]
     for i in range(n):
-        e = g.L(rng.choice([1, 2, 3, 4])) if rng.random() < 0.7 else g.other(rng.choice([0, 1, 2]))
-        t = render(e)
+        if i < len(MACRO_DATA): t = MACRO_DATA[i]
+        else:
+            e = g.L(rng.choice([1, 2, 3, 4])) if rng.random() < 0.7 else g.other(rng.choice([0, 1, 2]))
+            t = render(e)
         exprs.append(t)
         c = Case('m%d' % i)
         c.eval(C11_PRE); c.vars(C11_VARS)
